@@ -1454,7 +1454,15 @@ impl StoryState {
             self.switch_to_default_flow_internal();
         }
 
-        self.named_flows.as_mut().unwrap().remove(flow_name);
+        let removed = self
+            .named_flows
+            .as_mut()
+            .and_then(|named_flows| named_flows.remove(flow_name));
+        if removed.is_none() {
+            return Err(StoryError::BadArgument(format!(
+                "Flow '{flow_name}' does not exist."
+            )));
+        }
         self.alive_flow_names_dirty = true;
 
         Ok(())
